@@ -352,7 +352,10 @@ func (e *emitCtx) devirtualise(call *ssa.Call, look func(ssa.Value) ssa.Value) s
 	default:
 		// a function value that only changed its type name on the way (`iter.Seq[T]` <- the closure an iterator constructor
 		// returned, once that constructor has been inlined): call the closure itself
-		if ct, isCT := look(cur.Call.Value).(*ssa.ChangeType); isCT {
+		// (not in the syntax packages: their rules are written against the loops of the parser and the printer as loops; an
+		// iterator there is answered with "cannot decide")
+		hostPkg := shortPkg(fnPkgPath(e.host))
+		if ct, isCT := look(cur.Call.Value).(*ssa.ChangeType); isCT && hostPkg != "lexer" && hostPkg != "parser" && hostPkg != "ast" {
 			switch cv := ct.X.(type) {
 			case *ssa.Function, *ssa.MakeClosure:
 				rewrite(cv, append([]ssa.Value(nil), cur.Call.Args...))
@@ -731,6 +734,7 @@ func (c *Ctx) canonicaliseOnce(depth int) *canonStats {
 			np += splitFuncPhiCalls(f)
 			np += splitPhiReturns(f)
 			np += retargetThunkCalls(f)
+			np += foldConstBranches(f)
 			nt := 0
 			if !noThread[shortPkg(fnPkgPath(f))] {
 				nt = threadJumps(f)
@@ -810,6 +814,82 @@ func (c *Ctx) canonicaliseOnce(depth int) *canonStats {
 	c.ModFuncs = kept
 	sort.Strings(st.absorbedNames)
 	return st
+}
+
+// foldConstBranches: a branch on a comparison of two integer (or boolean) constants - what the exit protocol of an inlined
+// range-over-func body leaves behind once its state variable has become a register - is replaced by a jump to the side it takes.
+func foldConstBranches(f *ssa.Function) int {
+	n := 0
+	for _, b := range f.Blocks {
+		iff, ok := lastInstr(b).(*ssa.If)
+		if !ok || len(b.Succs) != 2 {
+			continue
+		}
+		val, known := false, false
+		switch c := iff.Cond.(type) {
+		case *ssa.Const:
+			if bv, isB := constBool(c); isB {
+				val, known = bv, true
+			}
+		case *ssa.BinOp:
+			x, okX := constInt(c.X)
+			y, okY := constInt(c.Y)
+			if _, isCX := c.X.(*ssa.Const); !isCX {
+				okX = false
+			}
+			if _, isCY := c.Y.(*ssa.Const); !isCY {
+				okY = false
+			}
+			if okX && okY {
+				switch c.Op {
+				case token.EQL:
+					val, known = x == y, true
+				case token.NEQ:
+					val, known = x != y, true
+				case token.LSS:
+					val, known = x < y, true
+				case token.LEQ:
+					val, known = x <= y, true
+				case token.GTR:
+					val, known = x > y, true
+				case token.GEQ:
+					val, known = x >= y, true
+				}
+			}
+		}
+		if !known || b.Succs[0] == b.Succs[1] {
+			continue
+		}
+		taken, dropped := b.Succs[0], b.Succs[1]
+		if !val {
+			taken, dropped = dropped, taken
+		}
+		// remove the edge b -> dropped
+		idx := -1
+		for i, p := range dropped.Preds {
+			if p == b {
+				idx = i
+			}
+		}
+		if idx < 0 {
+			continue
+		}
+		dropped.Preds = append(append([]*ssa.BasicBlock(nil), dropped.Preds[:idx]...), dropped.Preds[idx+1:]...)
+		for _, in := range dropped.Instrs {
+			if phi, isPhi := in.(*ssa.Phi); isPhi && idx < len(phi.Edges) {
+				phi.Edges = append(append([]ssa.Value(nil), phi.Edges[:idx]...), phi.Edges[idx+1:]...)
+			}
+		}
+		j := &ssa.Jump{}
+		setField(j, "block", b)
+		b.Instrs[len(b.Instrs)-1] = j
+		b.Succs = []*ssa.BasicBlock{taken}
+		n++
+	}
+	if n > 0 {
+		pruneUnreachable(f)
+	}
+	return n
 }
 
 // retargetThunkCalls: a static call of the wrapper go/ssa makes for a method expression (`(*App).format` used as a plain function
@@ -1324,6 +1404,12 @@ func dropDeadClosures(f *ssa.Function) int {
 			for _, in := range b.Instrs {
 				if mc, ok := in.(*ssa.MakeClosure); ok && uses[mc] == 0 {
 					dead[in] = true
+				}
+				// the closure under another type name (iter.Seq[T]) that nobody calls any more
+				if ct, ok := in.(*ssa.ChangeType); ok && uses[ct] == 0 {
+					if _, isMC := ct.X.(*ssa.MakeClosure); isMC {
+						dead[in] = true
+					}
 				}
 			}
 		}
